@@ -331,6 +331,7 @@ def _run(rep: Report, tier: str, seed: int, pool: Any) -> Report:
     nsim = 120 if tier == "quick" else 1200
     sres, sims = tlc.simulate_behaviours("MC_DbReplay", "MC_DbReplay_sim.cfg", num=nsim, depth=40,
                                          seed=seed + 12, timeout=1200)
+    rep.add_tlc(sres, "MC_DbReplay_sim (simulation, invariants checked on the way)")
     nused = 0
     for i, b in enumerate(sims):
         if not b:
@@ -366,6 +367,13 @@ def _run(rep: Report, tier: str, seed: int, pool: Any) -> Report:
         "url": "c12inproc://target", "ecu_name": "tgt", "props": TARGET_PROPS,
         "steps": [{"pdu": "1003"}, {"pdu": "221234"}, {"pdu": "22f190"}], "oob": [1],
         "peer": {"kind": "model", "seed": 1, "params": 0}}})
+    # probes OUTSIDE the quantifier of C12 (an ECU that answers undecodable bytes is not a RandomUDSServer
+    # model): executed and reported in the evidence, never a violation of this check
+    for name, bad in (("p-malformed-positive", "6212"), ("p-malformed-negative", "7f22")):
+        cases.append({"id": name, "second_pass": False, "target": {
+            "url": "c12inproc://target", "ecu_name": "tgt", "props": TARGET_PROPS,
+            "steps": [{"pdu": "221234"}, {"pdu": "22f190"}],
+            "peer": {"kind": "script", "script": [bad, "62f19041"]}}})
     # ---- 4. execute on the real objects
     traces = L.run_cases(cases, pool)
     skipped = [t for t in traces if "skip" in t]
@@ -384,8 +392,12 @@ def _run(rep: Report, tier: str, seed: int, pool: Any) -> Report:
     classes: dict[str, int] = {}
     explained: dict[str, int] = {}
     seen_sig: dict[str, int] = {}
+    probes: dict[str, Any] = {}
     for t in traces:
         label, cls, idx, expl, drift = verdicts[str(t["id"])]
+        if str(t["id"]).startswith("p-"):
+            probes[str(t["id"])] = {"verdict": label, "at": idx, "replayed": [hexs(o["rep"]) for o in t["obs"]]}
+            continue
         classes[cls] = classes.get(cls, 0) + 1
         explained[expl] = explained.get(expl, 0) + 1
         rows = [t["rows"][i - 1] for i in t["tgt"]]
@@ -410,6 +422,7 @@ def _run(rep: Report, tier: str, seed: int, pool: Any) -> Report:
             elif drift:
                 rep.drift.append({"id": t["id"], "design": f"differs from the intended design in: {drift}"})
     rep.extra["violating_replays_by_signature"] = seen_sig
+    rep.extra["outside_quantifier_probes"] = probes
     rep.extra["verdict_classes"] = classes
     rep.extra["unspecified"] = classes.get("unspecified", 0) + classes.get("void", 0)
     rep.extra["explained_by"] = explained
